@@ -43,3 +43,13 @@ claim("C06", "Coq theorem that draws depend on sizes only (tape consumption/rear
 claim("C16", "Coq model of potential_outcomes / two_sample_shift + theorems (shift 0 = two_sample, scalar = pair, guards) + correspondence",
       "potential_outcomes and two_sample_shift are modelled exactly; correspondence on scalar shifts (incl. non-integer shifts of integer data), inverse and non-inverse pairs, missing shift and single callables, with recording statistics; theorems in Properties/C16.v.",
       CORE_NOTE, "DESIGN.md 4/C16")
+
+claim("C02", "Coq tape model of the stratified helpers/tests (+ faithful tail table) + correspondence with a scripted generator; documented statistics recomputed independently",
+      "permute_within_groups, permute_rows chains, stratified_permutationtest, stratified_two_sample, bivariate_k_sample (exact two-way anova) are modelled with the tape; compared with the implementation on scripted tapes (outputs, recorded arguments, draws); every named statistic option is recomputed from its documented formula on the rearrangement selected by the draws; the 'less'/'two-sided' tail tables are a recorded known finding.",
+      CORE_NOTE, "DESIGN.md 4/C02")
+claim("C04", "Coq theorem: each selection shuffle maps the answer space bijectively onto the permutations (all sizes) + exhaustive decision-tree enumeration of the implementation on small designs",
+      "shuf_uniform (MathComp): for duplicate-free input of any size, the Fisher-Yates step of cryptorandom and the move-last step of random.shuffle / sample_by_index produce every permutation exactly once over the product answer space (size n!). The implementation's full decision tree is enumerated for all small designs (every answer sequence), each leaf compared with the model and outcome weights required uniform on the admissible set, including joint uniformity over two repetitions.",
+      CORE_NOTE, "DESIGN.md 4/C04")
+claim("C10", "Coq model of westfall_young on the table of statistics + textbook step-down spec, both compared with the implementation; property clauses and rotation FWER count asserted on the implementation",
+      "westfall_young (after the randomizations) is modelled line by line (stable sorts, successive minima/maxima, monotonicity pass); model and the textbook step-down spec are evaluated in Coq against the implementation driven by a scripted Randomizer on all tables with <=2 simulated rows x <=2 hypotheses over {-1,0,1} and random tables; adj>=raw, range, ordering, relabelling and the rotation FWER count are asserted on the implementation.",
+      COMMON_NOTE + "Python's sorted() stability is modelled by an insertion sort.", "DESIGN.md 4/C10")
